@@ -1,6 +1,740 @@
 package props
 
-import "verif/core"
+import (
+	"fmt"
+	"math"
+	"math/big"
+	"reflect"
+	"sort"
+	"strings"
 
-func c10SchemaCases() int          { return 0 }
-func c10Schema(c *core.Ctx, k int) {}
+	"github.com/freeconf/yang/meta"
+	"github.com/freeconf/yang/node"
+	"github.com/freeconf/yang/parser"
+	"github.com/freeconf/yang/val"
+
+	"verif/core"
+)
+
+// Schema-aware half of C10: node.NewValue / NewValuesByString on compiled types (enum, bits, identityref, union, leafref and list forms).
+// The expected side is computed from the tables below, never from the library.
+
+const c10yang = `module c10 {
+  namespace "urn:c10";
+  prefix c;
+  revision 2020-01-01;
+  identity base-id;
+  identity id-a { base base-id; }
+  identity id-b { base id-a; }
+  identity other;
+  typedef en { type enumeration { enum zero; enum one; enum five { value 5; } enum six; enum big { value 2147483647; } } }
+  typedef bt { type bits { bit b0; bit b1; bit b5 { position 5; } bit b6; } }
+  leaf e { type en; }
+  leaf-list el { type en; }
+  leaf b { type bt; }
+  leaf-list bl { type bt; }
+  leaf ir { type identityref { base base-id; } }
+  leaf-list irl { type identityref { base base-id; } }
+  leaf u { type union { type int8; type enumeration { enum one; enum two; } type string; } }
+  leaf u2 { type union { type uint8; type boolean; } }
+  leaf u3 { type union { type uint8; type enumeration { enum one; enum two; } } }
+  leaf-list ul { type union { type int8; type string; } }
+  leaf-list ul2 { type union { type uint8; type boolean; } }
+  leaf t8 { type uint8; }
+  leaf lr { type leafref { path "../t8"; } }
+  leaf lre { type leafref { path "../e"; } }
+  leaf-list lrl { type leafref { path "../t8"; } }
+  list l {
+    key "k1 k2 k3";
+    leaf k1 { type int16; }
+    leaf k2 { type string; }
+    leaf k3 { type enumeration { enum a; enum b; } }
+  }
+}`
+
+var c10enum = map[string]int64{"zero": 0, "one": 1, "five": 5, "six": 6, "big": 2147483647}
+var c10bits = map[string]uint{"b0": 0, "b1": 1, "b5": 5, "b6": 6}
+var c10idents = map[string]bool{"base-id": true, "id-a": true, "id-b": true}
+
+var c10mod *meta.Module
+
+func c10module() (*meta.Module, error) {
+	if c10mod != nil {
+		return c10mod, nil
+	}
+	m, err := parser.LoadModuleFromString(nil, c10yang)
+	if err == nil {
+		c10mod = m
+	}
+	return m, err
+}
+
+var c10schemaKinds = []string{"enum", "enum-list", "bits", "bits-list", "identityref", "identityref-list", "union", "union-list", "leafref", "keys"}
+
+func c10SchemaCases() int { return len(c10schemaKinds) }
+
+func c10leafType(m *meta.Module, name string) *meta.Type {
+	return meta.Find(m, name).(meta.Leafable).Type()
+}
+
+// integer denotation of a Go value of a numeric kind; ok=false for non-numbers, nil for non-integral / NaN / Inf
+func c10num(s interface{}) (n *big.Int, isNum bool) {
+	v := reflect.ValueOf(s)
+	switch v.Kind() {
+	case reflect.Int, reflect.Int8, reflect.Int16, reflect.Int32, reflect.Int64:
+		return big.NewInt(v.Int()), true
+	case reflect.Uint, reflect.Uint8, reflect.Uint16, reflect.Uint32, reflect.Uint64:
+		return new(big.Int).SetUint64(v.Uint()), true
+	case reflect.Float32, reflect.Float64:
+		f := v.Float()
+		if math.IsNaN(f) || math.IsInf(f, 0) || f != math.Trunc(f) {
+			return nil, true
+		}
+		b, _ := new(big.Float).SetFloat64(f).Int(nil)
+		return b, true
+	}
+	return nil, false
+}
+
+var c10intSources = []interface{}{0, 1, 5, 6, 2, -1, 7, 2147483647, int64(2147483648), int64(4294967297), int64(4294967296 + 5), int64(-4294967295), uint64(math.MaxUint64), uint64(1 << 32),
+	int8(5), int8(-1), uint8(6), uint8(200), int16(1), uint16(5), int32(6), uint32(1), uint32(4294967295), uint(5), int64(1), uint64(6),
+	1.0, 5.0, 1.5, 4.999999, 0.0, math.NaN(), 1e20, -1.0, float32(6), float32(0.5), math.Inf(1), 4294967297.0}
+
+// enumOK decides whether enum value r is an exact rendering of source s; must says the source is a natural one that has to convert
+func c10enumJudge(s interface{}) (accept func(r val.Enum) bool, must bool, class string) {
+	member := func(r val.Enum) bool { id, ok := c10enum[r.Label]; return ok && id == int64(r.Id) }
+	switch x := s.(type) {
+	case string:
+		_, isLabel := c10enum[x]
+		var asNum *big.Int
+		if intStr.MatchString(x) {
+			asNum, _ = new(big.Int).SetString(x, 10)
+		}
+		return func(r val.Enum) bool {
+			return member(r) && (r.Label == x || (asNum != nil && asNum.IsInt64() && asNum.Int64() == int64(r.Id)))
+		}, isLabel, "string"
+	case val.Enum:
+		id, ok := c10enum[x.Label]
+		consistent := ok && id == int64(x.Id)
+		return func(r val.Enum) bool {
+			return member(r) && (r.Label == x.Label || (!consistent && r.Id == x.Id))
+		}, consistent, "val.Enum"
+	}
+	if n, isNum := c10num(s); isNum {
+		defined := false
+		if n != nil && n.IsInt64() {
+			for _, id := range c10enum {
+				if id == n.Int64() {
+					defined = true
+				}
+			}
+		}
+		_, isFloat := s.(float64)
+		_, isFloat32 := s.(float32)
+		return func(r val.Enum) bool { return member(r) && n != nil && n.IsInt64() && n.Int64() == int64(r.Id) }, defined && !isFloat && !isFloat32, "number"
+	}
+	return func(r val.Enum) bool { return false }, false, "other"
+}
+
+func c10call(c *core.Ctx, tag string, s interface{}, f func() (val.Value, error)) (v val.Value, err error, ok bool) {
+	c.Eval()
+	pv, st := core.Try(func() { v, err = f() })
+	if pv != nil {
+		c.Violate("panic/"+tag, "NewValue(%s, %#v) panicked: %v\n%s", tag, s, pv, core.TrimStack(st))
+		return nil, nil, false
+	}
+	if err != nil && v != nil && !reflect.ValueOf(v).IsZero() {
+		// typed helpers hand back what they had built so far next to the error; callers test the error
+		c.Count("partial_value_next_to_error")
+	}
+	return v, err, true
+}
+
+func c10Schema(c *core.Ctx, k int) {
+	m, err := c10module()
+	if err != nil {
+		c.Violate("schema/load", "the C10 schema does not load: %v", err)
+		return
+	}
+	kind := c10schemaKinds[k]
+	c.SetSample(map[string]interface{}{"target": kind, "api": "node.NewValue on compiled types of module c10"})
+	switch kind {
+	case "enum":
+		t := c10leafType(m, "e")
+		var srcs []interface{}
+		for l := range c10enum {
+			srcs = append(srcs, l)
+		}
+		sort.Slice(srcs, func(i, j int) bool { return srcs[i].(string) < srcs[j].(string) })
+		srcs = append(srcs, "Zero", " one", "one ", "", "seven", "1", "5", "2", "05", "+1", "1.0", "2147483647", "4294967297", "-1", true,
+			val.Enum{Id: 1, Label: "one"}, val.Enum{Id: 5, Label: "five"}, val.Enum{Id: 1, Label: "five"}, val.Enum{Id: 99, Label: "nope"}, val.Enum{Id: 2147483647, Label: "big"}, []string{"one"})
+		srcs = append(srcs, c10intSources...)
+		for _, s := range srcs {
+			s := s
+			c10enumOne(c, "enum", s, func() (val.Value, error) { return node.NewValue(t, s) })
+		}
+		// through a leafref
+		lt := c10leafType(m, "lre")
+		for _, s := range []interface{}{"one", "seven", 5, 7, int64(4294967297), val.Enum{Id: 6, Label: "six"}} {
+			s := s
+			c10enumOne(c, "leafref->enum", s, func() (val.Value, error) { return node.NewValue(lt, s) })
+		}
+	case "enum-list":
+		t := c10leafType(m, "el")
+		srcs := []interface{}{
+			[]string{"one", "five"}, []string{"zero"}, []string{}, []string{"one", "seven"}, []string{"1", "5"},
+			[]interface{}{"one", 5}, []interface{}{"one", "nope"}, []interface{}{1.0, "six"}, []interface{}{int64(4294967297)}, []interface{}{},
+			[]int{0, 1, 5}, []int{2}, []int{6, 7}, []int64{1, 5}, []int64{4294967297}, []int32{6}, []uint8{5, 6}, []float64{1, 5}, []float64{1.5},
+			val.EnumList{{Id: 1, Label: "one"}, {Id: 6, Label: "six"}}, []val.Enum{{Id: 0, Label: "zero"}}, val.EnumList{{Id: 9, Label: "nine"}}, val.EnumList{},
+			"one", "seven", 5, 7, val.Enum{Id: 5, Label: "five"},
+		}
+		for _, s := range srcs {
+			s := s
+			tag := "enum-list<-" + kindOf(s)
+			v, err, ok := c10call(c, tag, s, func() (val.Value, error) { return node.NewValue(t, s) })
+			if !ok {
+				continue
+			}
+			elems, single := c10elems(s)
+			must := true
+			var judges []func(val.Enum) bool
+			for _, e := range elems {
+				a, mu, _ := c10enumJudge(e)
+				judges = append(judges, a)
+				must = must && mu
+			}
+			if _, isF := s.([]float64); isF {
+				must = false
+			}
+			c.Shape("%s/err=%v/n%d", tag, err != nil, len(elems))
+			if err != nil {
+				if must && len(elems) > 0 {
+					c.Violate("must-convert/"+tag, "NewValue(enum-list, %#v) failed: %v - every element names a defined enum", s, err)
+				}
+				continue
+			}
+			if v == nil {
+				if len(elems) > 0 {
+					c.Violate("nil-nil/"+tag, "NewValue(enum-list, %#v) returned (nil, nil)", s)
+				} else {
+					c.Count("empty_list_is_nil")
+				}
+				continue
+			}
+			l, isList := v.(val.EnumList)
+			if !isList {
+				c.Violate("wrong-format/"+tag, "NewValue(enum-list, %#v) returned %T", s, v)
+				continue
+			}
+			if len(l) != len(elems) {
+				c.Violate("inexact/"+tag+"/length", "NewValue(enum-list, %#v) = %v: %d elements from %d", s, l, len(l), len(elems))
+				continue
+			}
+			for i := range l {
+				if !judges[i](l[i]) {
+					cls := "element"
+					if single {
+						cls = "single"
+					}
+					c.Violate("inexact/"+tag+"/"+cls, "NewValue(enum-list, %#v) = %v: element %d is not the enum the source names", s, l, i)
+					break
+				}
+			}
+		}
+	case "bits", "bits-list":
+		c10Bits(c, m, kind)
+	case "identityref", "identityref-list":
+		c10Idents(c, m, kind)
+	case "union", "union-list":
+		c10Unions(c, m, kind)
+	case "leafref":
+		t := c10leafType(m, "lr")
+		p := c10{}
+		for _, s := range c10scalarSources() {
+			s := s
+			p.checkScalar(c, "NewValue(leafref->uint8)", val.FmtUInt8, s, func() (val.Value, error) { return node.NewValue(t, s) })
+		}
+		tl := c10leafType(m, "lrl")
+		for _, s := range []interface{}{[]int{1, 2}, []int{1, 256}, []int{-1}, []string{"1", "255"}, []string{"256"}, []interface{}{1.0, "2"}, []interface{}{1.5}, []float64{300}, []uint8{1, 2}} {
+			s := s
+			tag := "leafref-list<-" + kindOf(s)
+			v, err, ok := c10call(c, tag, s, func() (val.Value, error) { return node.NewValue(tl, s) })
+			if !ok || err != nil {
+				c.Shape("%s/err", tag)
+				continue
+			}
+			c.Shape("%s/ok", tag)
+			elems, _ := c10elems(s)
+			l, isList := v.(val.UInt8List)
+			if !isList || len(l) != len(elems) {
+				c.Violate("inexact/"+tag+"/shape", "NewValue(leafref-list->uint8, %#v) = %#v", s, v)
+				continue
+			}
+			for i, e := range elems {
+				d := denoteSrc(e)
+				if d.num == nil || !d.num.IsInt() || d.num.Num().Cmp(big.NewInt(int64(l[i]))) != 0 {
+					c.Violate("inexact/"+tag+"/element", "NewValue(leafref-list->uint8, %#v) = %v: element %d differs from the source", s, l, i)
+				}
+			}
+		}
+	case "keys":
+		c10Keys(c, m)
+	}
+}
+
+func c10enumOne(c *core.Ctx, what string, s interface{}, f func() (val.Value, error)) {
+	accept, must, class := c10enumJudge(s)
+	tag := what + "<-" + kindOf(s)
+	v, err, ok := c10call(c, tag, s, f)
+	if !ok {
+		return
+	}
+	c.Shape("%s/%s/err=%v/must=%v", tag, class, err != nil, must)
+	if err != nil {
+		if must {
+			c.Violate("must-convert/"+tag, "NewValue(%s, %#v) failed: %v - the source names a defined enum", what, s, err)
+		}
+		return
+	}
+	if v == nil {
+		c.Violate("nil-nil/"+tag, "NewValue(%s, %#v) returned (nil, nil)", what, s)
+		return
+	}
+	r, isEnum := v.(val.Enum)
+	if !isEnum {
+		c.Violate("wrong-format/"+tag, "NewValue(%s, %#v) returned %T", what, s, v)
+		return
+	}
+	if !accept(r) {
+		cls := "not-named-by-source"
+		if _, in := c10enum[r.Label]; !in {
+			cls = "not-a-member"
+		}
+		c.Violate("inexact/"+tag+"/"+cls, "NewValue(%s, %#v) = %#v although the source does not denote that enum (defined: %v)", what, s, r, c10enum)
+	}
+}
+
+// elements of a slice source; a non-slice source is one element
+func c10elems(s interface{}) ([]interface{}, bool) {
+	v := reflect.ValueOf(s)
+	if v.Kind() == reflect.Slice {
+		out := make([]interface{}, v.Len())
+		for i := range out {
+			out[i] = v.Index(i).Interface()
+		}
+		return out, false
+	}
+	return []interface{}{s}, true
+}
+
+// ---------------------------------------------------------------------------------------------
+
+// expected bit set for a source: ok=false when the source denotes no bit set over the defined bits
+func c10bitsJudge(s interface{}) (want uint64, ok bool, must bool) {
+	names := func(l []string) (uint64, bool) {
+		var w uint64
+		for _, n := range l {
+			p, def := c10bits[n]
+			if !def {
+				return 0, false
+			}
+			w |= 1 << p
+		}
+		return w, true
+	}
+	switch x := s.(type) {
+	case string:
+		if x == "" {
+			return 0, true, false
+		}
+		// names separated by white space
+		w, ok := names(strings.Fields(x))
+		return w, ok, ok && !strings.Contains(x, "  ") && strings.TrimSpace(x) == x
+	case []string:
+		w, ok := names(x)
+		return w, ok, ok
+	case val.Bits:
+		var w uint64
+		for _, p := range c10bits {
+			w |= 1 << p
+		}
+		return x.Positions, x.Positions&^w == 0, false
+	}
+	if n, isNum := c10num(s); isNum {
+		if n == nil || n.Sign() < 0 || !n.IsUint64() {
+			return 0, false, false
+		}
+		var all uint64
+		for _, p := range c10bits {
+			all |= 1 << p
+		}
+		if n.Uint64()&^all != 0 {
+			return 0, false, false
+		}
+		_, isU64 := s.(uint64)
+		return n.Uint64(), true, isU64
+	}
+	return 0, false, false
+}
+
+func c10bitsCheck(c *core.Ctx, tag string, s interface{}, r val.Bits) {
+	want, ok, _ := c10bitsJudge(s)
+	if !ok {
+		c.Violate("inexact/"+tag+"/undefined-bits-accepted", "NewValue(bits, %#v) = %#v although the source names a bit that is not defined (defined: %v)", s, r, c10bits)
+		return
+	}
+	if r.Positions != want {
+		c.Violate("inexact/"+tag+"/positions", "NewValue(bits, %#v) = %#v: positions %#x, the source denotes %#x", s, r, r.Positions, want)
+		return
+	}
+	var wl []string
+	for n, p := range c10bits {
+		if want&(1<<p) != 0 {
+			wl = append(wl, n)
+		}
+	}
+	gl := append([]string{}, r.Labels...)
+	sort.Strings(wl)
+	sort.Strings(gl)
+	// repeated names in the source may repeat in the labels
+	gl = uniq(gl)
+	if strings.Join(wl, " ") != strings.Join(gl, " ") {
+		c.Violate("inexact/"+tag+"/labels", "NewValue(bits, %#v) = %#v: labels %v do not name positions %#x", s, r, r.Labels, want)
+	}
+}
+
+func uniq(l []string) []string {
+	var out []string
+	for i, x := range l {
+		if i == 0 || x != l[i-1] {
+			out = append(out, x)
+		}
+	}
+	return out
+}
+
+func c10Bits(c *core.Ctx, m *meta.Module, kind string) {
+	if kind == "bits" {
+		t := c10leafType(m, "b")
+		srcs := []interface{}{"b0", "b0 b5", "b5 b0", "b6 b5 b1 b0", "", "b9", "b0 b9", "b0  b1", "b0 b0", " b0", "B0", "0",
+			[]string{"b0", "b6"}, []string{"nope"}, []string{}, []string{"b1", "b1"},
+			uint64(0), uint64(1), uint64(0x63), uint64(0x4), uint64(0x67), uint64(1 << 63), uint64(0x20),
+			0, 3, 4, -1, 0x63, int64(0x21), int64(-2), int64(1 << 40), uint(2), uint(8), 3.0, 2.5, -1.0, 99.0, math.NaN(),
+			val.Bits{Positions: 0x21, Labels: []string{"b0", "b5"}}, val.Bits{Positions: 0x4}, true}
+		for _, s := range srcs {
+			s := s
+			tag := "bits<-" + kindOf(s)
+			v, err, ok := c10call(c, tag, s, func() (val.Value, error) { return node.NewValue(t, s) })
+			if !ok {
+				continue
+			}
+			_, denotes, must := c10bitsJudge(s)
+			c.Shape("%s/err=%v/denotes=%v", tag, err != nil, denotes)
+			if err != nil {
+				if must {
+					c.Violate("must-convert/"+tag, "NewValue(bits, %#v) failed: %v - every name is a defined bit", s, err)
+				}
+				continue
+			}
+			r, isBits := v.(val.Bits)
+			if !isBits {
+				c.Violate("wrong-format/"+tag, "NewValue(bits, %#v) returned %T", s, v)
+				continue
+			}
+			c10bitsCheck(c, tag, s, r)
+		}
+		return
+	}
+	t := c10leafType(m, "bl")
+	srcs := []interface{}{[]string{"b0 b1", "b5"}, []string{"b0", "b9"}, []string{""}, [][]string{{"b0"}, {"b5", "b6"}}, [][]string{{"zz"}},
+		[]uint64{1, 0x60}, []uint64{4}, []int{3, 0x20}, []int{-1}, []float64{1, 2}, []float64{1.5}, []int64{1}, []interface{}{"b0", 2.0}, "b0", uint64(1),
+		val.BitsList{{Positions: 1, Labels: []string{"b0"}}}}
+	for _, s := range srcs {
+		s := s
+		tag := "bits-list<-" + kindOf(s)
+		v, err, ok := c10call(c, tag, s, func() (val.Value, error) { return node.NewValue(t, s) })
+		if !ok {
+			continue
+		}
+		c.Shape("%s/err=%v", tag, err != nil)
+		elems, _ := c10elems(s)
+		if err != nil {
+			must := len(elems) > 0
+			for _, e := range elems {
+				_, _, mu := c10bitsJudge(e)
+				must = must && mu
+			}
+			switch s.(type) {
+			case []string, [][]string, []uint64:
+			default:
+				must = false
+			}
+			if must {
+				c.Violate("must-convert/"+tag, "NewValue(bits-list, %#v) failed: %v", s, err)
+			}
+			continue
+		}
+		l, isList := v.(val.BitsList)
+		if !isList || len(l) != len(elems) {
+			c.Violate("inexact/"+tag+"/shape", "NewValue(bits-list, %#v) = %#v", s, v)
+			continue
+		}
+		for i, e := range elems {
+			c10bitsCheck(c, tag, e, l[i])
+		}
+	}
+}
+
+// ---------------------------------------------------------------------------------------------
+
+func c10identJudge(s interface{}) (label string, ok bool, must bool) {
+	switch x := s.(type) {
+	case string:
+		l := x
+		plain := true
+		if i := strings.IndexByte(x, ':'); i >= 0 {
+			l = x[i+1:]
+			plain = false
+		}
+		return l, c10idents[l], c10idents[l] && plain && l != "base-id"
+	case val.IdentRef:
+		return x.Label, c10idents[x.Label], c10idents[x.Label] && x.Label != "base-id"
+	}
+	return "", false, false
+}
+
+func c10Idents(c *core.Ctx, m *meta.Module, kind string) {
+	if kind == "identityref" {
+		t := c10leafType(m, "ir")
+		srcs := []interface{}{"id-a", "id-b", "base-id", "other", "c:id-a", "c:id-b", "x:id-a", ":id-a", "c:other", "", "ID-A", " id-a", "id-a ", "id-a:id-b", "c:c:id-a",
+			val.IdentRef{Label: "id-a"}, val.IdentRef{Label: "id-b"}, val.IdentRef{Label: "other"}, val.IdentRef{}, 5, true, []string{"id-a"}}
+		for _, s := range srcs {
+			s := s
+			tag := "identityref<-" + kindOf(s)
+			v, err, ok := c10call(c, tag, s, func() (val.Value, error) { return node.NewValue(t, s) })
+			if !ok {
+				continue
+			}
+			label, valid, must := c10identJudge(s)
+			c.Shape("%s/err=%v/valid=%v", tag, err != nil, valid)
+			if err != nil {
+				if must {
+					c.Violate("must-convert/"+tag, "NewValue(identityref, %#v) failed: %v - the identity is derived from the base", s, err)
+				}
+				continue
+			}
+			r, isRef := v.(val.IdentRef)
+			if !isRef {
+				c.Violate("wrong-format/"+tag, "NewValue(identityref, %#v) returned %T", s, v)
+				continue
+			}
+			if !valid || r.Label != label {
+				c.Violate("inexact/"+tag, "NewValue(identityref, %#v) = %#v: the source names %q (derived from base-id: %v)", s, r, label, valid)
+			}
+		}
+		return
+	}
+	t := c10leafType(m, "irl")
+	srcs := []interface{}{[]string{"id-a", "id-b"}, []string{"id-a", "other"}, []string{}, []interface{}{"id-a", "c:id-b"}, []interface{}{"id-a", 5}, "id-a", "other",
+		val.IdentRefList{{Label: "id-a"}, {Label: "id-b"}}, []val.IdentRef{{Label: "id-b"}}, val.IdentRefList{{Label: "other"}}, val.IdentRef{Label: "id-a"}}
+	for _, s := range srcs {
+		s := s
+		tag := "identityref-list<-" + kindOf(s)
+		v, err, ok := c10call(c, tag, s, func() (val.Value, error) { return node.NewValue(t, s) })
+		if !ok {
+			continue
+		}
+		elems, _ := c10elems(s)
+		must := len(elems) > 0
+		for _, e := range elems {
+			_, _, mu := c10identJudge(e)
+			must = must && mu
+		}
+		c.Shape("%s/err=%v", tag, err != nil)
+		if err != nil {
+			if must {
+				c.Violate("must-convert/"+tag, "NewValue(identityref-list, %#v) failed: %v - every element is derived from the base", s, err)
+			}
+			continue
+		}
+		if v == nil && len(elems) == 0 {
+			continue
+		}
+		l, isList := v.(val.IdentRefList)
+		if !isList || len(l) != len(elems) {
+			c.Violate("inexact/"+tag+"/shape", "NewValue(identityref-list, %#v) = %#v", s, v)
+			continue
+		}
+		for i, e := range elems {
+			label, valid, _ := c10identJudge(e)
+			if !valid || l[i].Label != label {
+				c.Violate("inexact/"+tag+"/element", "NewValue(identityref-list, %#v) = %#v: element %d", s, l, i)
+			}
+		}
+	}
+}
+
+// ---------------------------------------------------------------------------------------------
+
+// a union result must denote the source under the format it came back in
+func c10unionCheck(c *core.Ctx, tag string, s interface{}, v val.Value, enumLabels map[string]bool) {
+	p := c10{}
+	f := v.Format()
+	switch f {
+	case val.FmtEnum:
+		r := v.(val.Enum)
+		if x, isStr := s.(string); !(isStr && x == r.Label && enumLabels[x]) {
+			if e, isEnum := s.(val.Enum); !(isEnum && e.Label == r.Label && enumLabels[e.Label]) {
+				c.Violate("inexact/"+tag+"/enum-member", "union conversion of %#v gave enum %#v", s, r)
+			}
+		}
+	case val.FmtInt8, val.FmtUInt8, val.FmtString, val.FmtBool:
+		p.checkDenotes(c, "NewValue(union)", tag, f, s, denoteSrc(s), v)
+	default:
+		c.Violate("wrong-format/"+tag, "union conversion of %#v gave format %s, not a member type", s, f)
+	}
+}
+
+func c10Unions(c *core.Ctx, m *meta.Module, kind string) {
+	if kind == "union" {
+		for _, leaf := range []string{"u", "u2", "u3"} {
+			t := c10leafType(m, leaf)
+			enumLabels := map[string]bool{"one": true, "two": true}
+			srcs := []interface{}{5, 127, 128, -128, -129, 300, 255, 256, -1, int64(4294967301), uint64(math.MaxUint64), 1.0, 1.5, -0.5, 1e30, math.NaN(),
+				"5", "300", "one", "two", "three", "true", "false", "", "abc", " 5", "1.5", true, false, val.Enum{Id: 0, Label: "one"}, uint8(200), int8(-5)}
+			for _, s := range srcs {
+				s := s
+				tag := "union-" + leaf + "<-" + kindOf(s)
+				v, err, ok := c10call(c, tag, s, func() (val.Value, error) { return node.NewValue(t, s) })
+				if !ok {
+					continue
+				}
+				c.Shape("%s/err=%v", tag, err != nil)
+				if err != nil {
+					// natural members that have to convert
+					must := false
+					d := denoteSrc(s)
+					switch leaf {
+					case "u":
+						_, isStr := s.(string)
+						must = isStr
+					case "u2", "u3":
+						if _, isInt := s.(int); isInt && d.num != nil && d.num.IsInt() && d.num.Sign() >= 0 && d.num.Cmp(big.NewRat(255, 1)) <= 0 {
+							must = true
+						}
+						if b, isB := s.(bool); isB && leaf == "u2" {
+							_ = b
+							must = true
+						}
+						if x, isStr := s.(string); isStr && leaf == "u3" && enumLabels[x] {
+							must = true
+						}
+					}
+					if must {
+						c.Violate("must-convert/"+tag, "NewValue(union %s, %#v) failed: %v - the value belongs to a member type", leaf, s, err)
+					}
+					continue
+				}
+				if v == nil {
+					c.Violate("nil-nil/"+tag, "NewValue(union %s, %#v) returned (nil, nil)", leaf, s)
+					continue
+				}
+				c10unionCheck(c, tag, s, v, enumLabels)
+			}
+		}
+		return
+	}
+	for _, leaf := range []string{"ul", "ul2"} {
+		t := c10leafType(m, leaf)
+		srcs := []interface{}{[]int{1, 2}, []int{1, 300}, []int{-1}, []string{"a", "b"}, []string{"1", "2"}, []interface{}{1.0, "a"}, []interface{}{1.5}, []float64{300}, []float64{1, 2},
+			[]bool{true, false}, []string{"true"}, []interface{}{true, 1.0}, []int64{4294967297}, []string{}, 5, "a"}
+		for _, s := range srcs {
+			s := s
+			tag := "union-list-" + leaf + "<-" + kindOf(s)
+			v, err, ok := c10call(c, tag, s, func() (val.Value, error) { return node.NewValue(t, s) })
+			if !ok {
+				continue
+			}
+			c.Shape("%s/err=%v", tag, err != nil)
+			if err != nil || v == nil {
+				continue
+			}
+			elems, _ := c10elems(s)
+			l, isList := v.(val.Listable)
+			if !isList || l.Len() != len(elems) {
+				c.Violate("inexact/"+tag+"/shape", "NewValue(union-list %s, %#v) = %#v", leaf, s, v)
+				continue
+			}
+			for i, e := range elems {
+				c10unionCheck(c, tag, e, l.Item(i), nil)
+			}
+		}
+	}
+}
+
+// ---------------------------------------------------------------------------------------------
+
+func c10Keys(c *core.Ctx, m *meta.Module) {
+	l := meta.Find(m, "l").(*meta.List)
+	km := l.KeyMeta()
+	type kc struct {
+		in   []string
+		ok   bool
+		want []string
+	}
+	cases := []kc{
+		{[]string{"12", "abc", "b"}, true, []string{"12", "abc", "b"}},
+		{[]string{"-32768", "", "a"}, true, []string{"-32768", "", "a"}},
+		{[]string{"32768", "x", "a"}, false, nil},
+		{[]string{"65537", "x", "a"}, false, nil},
+		{[]string{"1.5", "x", "a"}, false, nil},
+		{[]string{"1", "x", "c"}, false, nil},
+		{[]string{"1", "x", "1"}, true, []string{"1", "x", "b"}},
+		{[]string{" 1", "x", "a"}, false, nil},
+		{[]string{"1", "a,b", "a"}, true, []string{"1", "a,b", "a"}},
+	}
+	for _, k := range cases {
+		k := k
+		c.Eval()
+		var vals []val.Value
+		var err error
+		pv, st := core.Try(func() { vals, err = node.NewValuesByString(km, k.in...) })
+		if pv != nil {
+			c.Violate("panic/keys", "NewValuesByString(%q) panicked: %v\n%s", k.in, pv, core.TrimStack(st))
+			continue
+		}
+		c.Shape("keys/%v/err=%v", k.ok, err != nil)
+		if err != nil {
+			if k.ok {
+				c.Violate("must-convert/keys", "NewValuesByString(%q) failed: %v", k.in, err)
+			}
+			continue
+		}
+		if !k.ok && k.in[0] != " 1" {
+			c.Violate("inexact/keys", "NewValuesByString(%q) = %v although a component is outside its key type", k.in, vals)
+			continue
+		}
+		if !k.ok {
+			continue
+		}
+		if len(vals) != 3 {
+			c.Violate("inexact/keys/arity", "NewValuesByString(%q) returned %d values", k.in, len(vals))
+			continue
+		}
+		for i, v := range vals {
+			got := ""
+			if v != nil {
+				got = v.String()
+			}
+			if got != k.want[i] {
+				c.Violate("inexact/keys/component", "NewValuesByString(%q)[%d] = %q, want %q", k.in, i, got, k.want[i])
+			}
+		}
+	}
+	// fewer strings than keys: the missing components stay nil
+	c.Eval()
+	if vals, err := node.NewValuesByString(km, "1"); err == nil && (len(vals) != 3 || vals[0] == nil || vals[0].String() != "1" || vals[1] != nil) {
+		c.Violate("inexact/keys/partial", "NewValuesByString(\"1\") = %v", vals)
+	}
+	_ = fmt.Sprint
+}
